@@ -22,7 +22,7 @@ HERE = os.path.dirname(os.path.dirname(os.path.abspath(__file__)))
 def audit(diff, budget, run_tests, tier, props_override=None):
     head = open(diff).read()
     m = re.search(r"^property:\s*(\S+)", head, re.M)
-    props = props_override or ([m.group(1)] if m else [])
+    props = props_override or (m.group(1).split(",") if m else [])
     name = os.path.splitext(os.path.basename(diff))[0]
     if name == "patch":
         name = os.path.basename(os.path.dirname(diff))
